@@ -9,7 +9,7 @@ from anytree import AnyNode, Node
 from anytree.exporter import DictExporter, JsonExporter
 from anytree.importer import DictImporter, JsonImporter
 
-from .. import forest, shapes, strategies, values
+from .. import forest, refs, shapes, strategies, values
 from ..core import Violation
 from . import c10
 
@@ -62,6 +62,14 @@ def json_equal(a, b):
 
 def check_case(case, acc):
     nodes = c10.build(case)
+    _once(case, acc, nodes)
+    for op in case.get("mutations", []):
+        refs.mutate_tree(nodes, op)
+        _once(case, acc, nodes)
+        acc.tag("rechecked_after_mutation")
+
+
+def _once(case, acc, nodes):
     start = nodes[case["start"]]
     kwargs = {}
     if case["indent"] != "none":
@@ -149,6 +157,7 @@ def random_cases(draw):
         "maxlevel": draw(st.one_of(st.none(), st.none(), st.integers(0, 5))),
         "pairs_hook": draw(st.booleans()),
         "explicit_importer": draw(st.booleans()),
+        "mutations": draw(strategies.tree_mutations(max_ops=2, rename_values=st.sampled_from(["renamed", "é"]))),
     }
     if draw(st.booleans()):
         case["dictexporter"] = {
